@@ -66,9 +66,11 @@ def interp_error(interp, nodes, pdf, x):
     us = np.exp(np.linspace(np.log(x), 0.0, 1501))[:-1]
     B = np.array([[bf.evaluate_x(u) for u in us] for bf in interp])  # (nodes, us)
     worst = 0.0
-    for pid in (21, 1, 2, -1):
+    for pid in cards.PIDS:  # every flavour the PDF provides (the heavy-quark densities have their own shapes and are what an intrinsic channel sees)
         fn = np.array([pdf.f(pid, xj) for xj in nodes])
         ex = np.array([pdf.f(pid, u) for u in us])
+        if not np.any(ex != 0):
+            continue
         ap = fn @ B
         # absolute interpolation residual on [x,1) in units of the largest PDF value there (the PDFs fall with u)
         worst = max(worst, float(np.max(np.abs(ap - ex)) / np.max(np.abs(ex))))
@@ -210,7 +212,7 @@ def run_case(case):
                 # improving the prediction by 1.5x only), so only a *deterioration* under refinement is a violation
                 # ... and only when the refined grid's error is a sizeable part (>10%) of what its interpolation accuracy allows: a coarse
                 # grid can be accurate by accident (measured: 2e-4 -> 7e-4 of S with both far inside K*eps)
-                if not e2 <= 2.0 * e1 + 3 * FLOOR * S2 + 5.0 * Es[j].get(key, 0.0) and e2 > 0.1 * (K[o] * epss[j] * S2):
+                if not e2 <= 2.0 * e1 + 3 * FLOOR * S2 + 5.0 * Es[j].get(key, 0.0) and e2 > max(0.1 * K[o], 1.5) * epss[j] * S2:  # (at LO the error is the interpolation residual at one point: anything up to ~eps is what the grid promises, however lucky the coarser grid was)
                     viol.append(dict(sig=f"refinement-worse|{case['kind']}|o{o}", what=f"{name} order {o} x={x:.5g}: interpolation error fell {epss[i]:.1e} -> {epss[j]:.1e} but the prediction error grew {e1/S1:.2e} -> {e2/S2:.2e} (of S)"))
     # (iii) SV keys on the two finest adequate grids
     if len(adequate) >= 2:
